@@ -1,6 +1,6 @@
-"""C01 serial execution (process part; meta-process part: see claims)."""
+"""C01 serial execution (processes and meta-processes)."""
 from checks import _sched
 
 
 def run(c):
-    _sched.run(c, "theories/Properties/C01.v", ["spec_c01"])
+    _sched.run(c, "theories/Properties/C01.v", ["spec_c01"], meta_spec=["spec_meta_c01"])
